@@ -472,6 +472,36 @@ pub fn run(s: &mut Session, ctx: &Ctx) {
             }
         }
     }
+    // the same in units whose conversion to degrees is a product: an odd number of turns beyond 2^45 (the
+    // product with 360 is no longer exact), the same count in grad, and counts whose product overflows
+    let mut unit_cases: Vec<(String, String)> = vec![];
+    for j in [1u32, 10, 30, 44, 45, 46, 48, 50, 52] {
+        let k = 2f64.powi(j as i32) + 1.0; // exactly representable, a whole number of turns
+        for sign in ["", "-"] {
+            unit_cases.push((format!("hsl({}{}turn,100%,50%)", sign, k), "hsl(0,100%,50%)".into()));
+            unit_cases.push((format!("hsv({}{}turn,100%,100%)", sign, k), "hsv(0,100%,100%)".into()));
+            unit_cases.push((format!("lch(50,60,{}{}turn)", sign, k), "lch(50,60,0)".into()));
+            if j <= 44 {
+                unit_cases.push((format!("hsl({}{}grad,100%,50%)", sign, 400.0 * k), "hsl(0,100%,50%)".into()));
+                unit_cases.push((format!("lch(50,60,{}{}grad)", sign, 400.0 * k + 100.0), format!("lch(50,60,{}100grad)", sign)));
+            }
+        }
+    }
+    for (a, b) in [("hsl(1e22turn,100%,50%)", "hsl(0,100%,50%)"), ("hsl(1e306turn,100%,50%)", "hsl(0,100%,50%)"), ("lch(50,60,1e306turn)", "lch(50,60,0)"),
+                   ("hsl(1e308grad,100%,50%)", "hsl(336grad,100%,50%)"), ("lch(50,60,1e308grad)", "lch(50,60,336grad)"), ("hsv(-1e308grad,100%,100%)", "hsv(-336grad,100%,100%)")] {
+        unit_cases.push((a.into(), b.into()));
+    }
+    for (form, same) in &unit_cases {
+        let a = parse_op(s, form, "whole-turns");
+        let b = parse_op(s, same, "whole-turns");
+        match (a, b) {
+            (Some(Some(ca)), Some(Some(cb))) => {
+                let (x, y) = (ca.to_rgba(), cb.to_rgba());
+                s.check(x == y, "angle-reduced-modulo-a-turn", "parser::parse_color", || form.clone(), || format!("{:?} but {} is {:?}", x, same, y));
+            }
+            _ => s.fail("angle-reduced-modulo-a-turn", "parser::parse_color", form.clone(), "rejected".into()),
+        }
+    }
     let n = if ctx.thorough { 1_200_000 } else { 50_000 };
     for i in 0..n {
         let (base, kind) = render(&mut rng);
